@@ -312,14 +312,16 @@ class BluePrint:
             if seg_dict["function"] == "waituntil":
                 arguments = blue_dict[seg]["arguments"].values()
                 arguments = (list(arguments)[0][0],)
-                bp_seg.insertSegment(i, "waituntil", arguments)
+                bp_seg.insertSegment(
+                    i, "waituntil", arguments, name=cls._basename(seg_dict["name"])
+                )
             else:
                 arguments = tuple(blue_dict[seg]["arguments"].values())
                 bp_seg.insertSegment(
                     i,
                     knowfunctions[seg_dict["function"]],
                     arguments,
-                    name=re.sub(r"\d", "", seg_dict["name"]),
+                    name=cls._basename(seg_dict["name"]),
                     dur=seg_dict["durations"],
                 )
             bp_sum = bp_sum + bp_seg
